@@ -1369,6 +1369,8 @@ class Enumerator:
             return [(st, dec != neg)]
         t = self.cfg.canon_term(t, st)
         text = self.cfg.canon_atom(render(t), st)
+        if text.startswith("!"):  # the configuration canonicalised the atom to the negation of another atom
+            text, neg = text[1:], not neg
         if text in st.val:
             return [(st, st.val[text] != neg)]
         out = []
